@@ -166,7 +166,7 @@ DECISIVE = {
     'C09': {'ref-err-vs-ok', 'ref-ok-vs-err', 'ref-errfield', 'ref-errclass', 'corr-bitset', 'corr-err-vs-ok', 'corr-ok-vs-err', 'corr-errclass', 'corr-errfield', 'corr-bytes', 'panic', 'crash'},
     'C10': {'ref-value', 'corr-bytes', 'corr-value', 'corr-size', 'prop-rt-value', 'panic', 'crash'},
     'C11': {'prop-malformed', 'ref-value', 'ref-err-vs-ok', 'corr-unknown', 'corr-value', 'corr-bytes', 'corr-size', 'prop-size', 'corr-hop', 'panic', 'crash'},
-    'C12': {'corr-resolve', 'corr-resolve-rejected', 'corr-resolve-accepted', 'corr-bytes', 'corr-value', 'prop-rt-value', 'panic', 'crash', 'universe-mismatch'},
+    'C12': {'prop-malformed', 'prop-size', 'corr-resolve', 'corr-resolve-rejected', 'corr-resolve-accepted', 'corr-bytes', 'corr-value', 'prop-rt-value', 'panic', 'crash', 'universe-mismatch'},
     'C13': {'corr-value', 'prop-rt-value', 'prop-rt-fail', 'corr-encerr', 'corr-sizepanic', 'corr-err-vs-ok', 'corr-resolve-accepted', 'prop-invalid-size', 'prop-invalid-enc', 'prop-invalid-dec', 'prop-valid-rejected', 'prop-badarg', 'panic', 'crash'},
     'C15': {'corr-errclass', 'corr-err-vs-ok', 'corr-ok-vs-err', 'panic', 'crash'},
     'C16': {'prop-short-accepted', 'prop-guard', 'prop-mutated', 'prop-repeat', 'prop-input-mutated', 'panic', 'crash'},
@@ -377,12 +377,18 @@ def shrink_failure(prop, f, result):
     exe = result.get('exe')
     if u is None or exe is None or f.get('session') or f['case'].startswith('(universe'):
         return f
+    if f.get('obs', '').startswith('(crash') and 'timeout' in bytes.fromhex(re.sub(r'[^0-9a-f]', '', f['obs'][7:])[:200] or '00').decode('latin1'):
+        return f          # a hang: every shrinking step would wait for the time limit again
     dec = DECISIVE.get(prop, set())
     usx = u.env_sx() + '\n' + u.gouniverse_sx()
 
+    deadline = time.time() + 90          # shrinking is a convenience: never more than 90 s of it
+
     def run_batch(cands):
+        if time.time() > deadline:
+            raise TimeoutError('shrink budget used up')
         cases = [('s%d' % i, c) for i, c in enumerate(cands)]
-        obs = run_cases(exe, cases, shards=min(NPROC, max(1, len(cases) // 10)))
+        obs = run_cases(exe, cases, shards=min(NPROC, max(1, len(cases) // 10)), timeout=30)
         res = run_judge(usx, cases, obs, os.path.join(CACHE, 'work', prop + '-shrink'))
         out = []
         for cid, _ in cases:
